@@ -938,7 +938,17 @@ func ruleFM4(c *Ctx) *rule {
 			bad = n
 		}
 	}
+	cut := ""
+	for _, v := range res.order {
+		if s, ok := v.(*ssa.Slice); ok {
+			if b, ok := s.X.Type().Underlying().(*types.Basic); ok && b.Info()&types.IsString != 0 {
+				cut = c.ipos(s)
+			}
+		}
+	}
 	switch {
+	case bad == "" && cut != "" && res.hasField("ast.Comment.Text"):
+		r.undecided(key, c.pos(cs.Pos()), "the comment text is cut by index arithmetic at "+cut+" (a hand-written trim): whether it keeps the text intact is a property of run-time values this rule cannot decide")
 	case !res.hasField("ast.Comment.Text"):
 		r.bad(key, c.pos(cs.Pos()), "the printed comment does not contain the comment's Text")
 	case bad != "":
